@@ -71,7 +71,12 @@ A_QUICK, A_THOROUGH = (5, -1, 400), (7, 2, 3000)
 AU_QUICK, AU_THOROUGH = 1, 3  # BFS depth of the second pass with the non-ASCII order
 AM_THOROUGH = 5  # thorough: full BFS depth for the market-order subclass (quick: directed chains, see SPINES)
 # order quantities (q, q') of the profiles that do not use (QTY_A, QTY_B)
-PROFILE_QTY = {"tiny": (2e-05, 1e16), "frac": (0.75, 1.25)}
+PROFILE_QTY = {"tiny": (2e-05, 1e16), "frac": (0.75, 1.25), "tiny7": (2.43e-05, 3.17e-05), "tiny8": (2.431e-05, 3.173e-05)}
+# profiles whose directed chain also gets the split probe (probe_splits): order quantities below 1e-4 (Python writes such
+# floats with an exponent) with 7 / 8 decimals = 243 / 2431 units of their own last decimal place
+SPLIT_PROFILES_QUICK, SPLIT_PROFILES_THOROUGH = ["tiny7"], ["tiny7", "tiny8"]
+SPLIT_PROFILES = []  # set by run()
+SPLIT_MAX_UNITS = 5000
 FOREIGN_CLORD = "somebody-else--1"
 HAND_ORDER_ID = "X77"  # OrderID of the hand-made acknowledgement (profile "resession")
 B_QUICK, B_THOROUGH = 5, 6
@@ -658,6 +663,35 @@ def probe_boundary(acc, names, path, ft, o, tr, seen_exec):
                               seen_exec)
 
 
+def probe_splits(acc, names, path, ft, o, tr, seen_exec):
+    """Every split of the order quantity at its own decimal resolution: E = n units u of the last decimal place of
+    repr(E); (CumQty, LeavesQty) = (k u, (n - k - s) u) for every k in 0..n, slack s in {0, 1}, x every ExecType
+    (OrdStatus 1 when something is filled, else 0; LastQty = the increase of CumQty for a trade)."""
+    try:
+        e = Decimal(repr(float(tr.qty)))
+    except InvalidOperation:
+        return
+    u = Decimal(1).scaleb(e.as_tuple().exponent)
+    n = int(e / u)
+    if n <= 0 or n > SPLIT_MAX_UNITS:
+        return
+    for k in range(n + 1):
+        cum = float(k * u)
+        for slack in (0, 1):
+            if n - k - slack < 0:
+                continue
+            lv = float((n - k - slack) * u)
+            st = "1" if k else "0"
+            for et in EXEC_TYPES:
+                last = None
+                if et == "F":
+                    last = float(k * u - Decimal(repr(float(tr.cum))))
+                    if last <= 0:
+                        continue
+                judge_er_pair(acc, names, path, ft, o, tr, ["er", "cur", et, st, cum, lv, last, None, None, None],
+                              seen_exec)
+
+
 def judge_er_pair(acc, names, path, ft, o, tr, op, seen_exec):
     """Fabricate the report of `op` twice in a row on (ft, o), judge both, process the
     first on a copy of the order.  Returns (processed copy, OrderID) or None."""
@@ -1006,7 +1040,7 @@ def special_chains(names):
     """Tiny / huge quantities and prices, and a plain MARKET order created without a price: one acknowledged,
     partly filled and replaced chain each, every report of the chain judged like a grid point."""
     out = []
-    for prof, price in (("tiny", 5e-05), ("plain_market", nan), ("frac", names[3])):
+    for prof, price in [("tiny", 5e-05), ("plain_market", nan), ("frac", names[3])] + [(p, 5e-05) for p in SPLIT_PROFILES]:
         nm = tuple(names[:3]) + (price, names[4], prof)
         qa, qb = PROFILE_QTY.get(prof, (QTY_A, QTY_B))
         h = qa / 2
@@ -1033,6 +1067,8 @@ def run_special(names):
                 seen_exec = set(tr.exec_ids)
                 judge_er_pair(acc, nm, list(path), ft, o, tr, op, seen_exec)
                 probe_boundary(acc, nm, list(path), ft, o, tr, seen_exec)
+                if profile_of(nm) in SPLIT_PROFILES:
+                    probe_splits(acc, nm, list(path), ft, o, tr, seen_exec)
             path = path + [op]
             try:
                 build(nm, path)
@@ -1114,6 +1150,7 @@ def run(ctx):
     depth, wild, max_states = (A_QUICK if ctx.quick else A_THOROUGH)
     blen = B_QUICK if ctx.quick else B_THOROUGH
     HELPER_LEAF[:] = H_QUICK if ctx.quick else H_THOROUGH
+    SPLIT_PROFILES[:] = SPLIT_PROFILES_QUICK if ctx.quick else SPLIT_PROFILES_THOROUGH
 
     # ---- (a) fabrication
     totals, levels, expanded, unexpanded, seen = run_a(ctx, names, depth, wild, max_states)
@@ -1154,7 +1191,8 @@ def run(ctx):
         "instance; the states after reset_messages() / a second registration are also chain states (leaves) for the "
         "first levels; non-trivial = helper call that returned a message. "
         "(b) every clean session script (initiator Logon, then initiator/acceptor app message, TestRequest, Heartbeat, "
-        "Logout, and - one step shorter - application messages with non-ASCII text both ways; nothing after a Logout) up to the length bound x 2 start-counter pairs, run against "
+        "Logout, and - one step shorter - application messages with non-ASCII text both ways; nothing after a Logout) up to the length bound x 2 start-counter pairs "
+        "(session heartbeat period 30; scripts up to b_heartbeat_script_len also with every other period of b_heartbeat_periods, set on the initiator, in its Logon and on the real acceptor), run against "
         "FIXTester(connection=conn) and against a real AsyncFIXDummyServer on a fake link, compared after every step"
     )
     ctx.bounds = {"a_depth": depth, "a_arbitrary_report_leaves_from_levels_upto": wild, "a_state_budget": max_states,
@@ -1166,7 +1204,11 @@ def run(ctx):
                   "a_states_found_not_expanded": unexpanded,
                   "grid": "17 x 14 x {nan,0,q/2,q} x {nan,0,E/2,E,E-cum} x {nan,q/2,q,cum-cum0} x {nan,p+1} x {nan,q'} x "
                           "own ClOrdIDs x {None,id}", "quantities": [QTY_A, QTY_B],
-                  "b_script_len": blen, "b_scripts": fb["scripts"], "b_start_counters": c20_world.STARTS}
+                  "a_split_probe": "directed chains with order quantity %s: every (k u, (n-k-s) u), k in 0..n, s in {0,1}, u = last "
+                                   "decimal place of the quantity, x 17 ExecTypes, in every report state of the chain"
+                                   % [PROFILE_QTY[p] for p in SPLIT_PROFILES],
+                  "b_script_len": blen, "b_scripts": fb["scripts"], "b_start_counters": c20_world.STARTS,
+                  "b_heartbeat_periods": fb["hb_periods"], "b_heartbeat_script_len": fb["hb_script_len"]}
     ctx.count(states=expanded + fb["scripts"], transitions=totals["calls"] + fb["steps"],
               traces=expanded + 2 * fb["scripts"], evaluations=totals["accepted"] + fb["comparisons"],
               nontrivial=totals["accepted"] + fb["scripts"], helper_calls=totals["calls"],
@@ -1187,6 +1229,8 @@ def run(ctx):
         "order is a LIMIT order with finite price and a string account; quantities 10 and 12; a second, shallower BFS uses an order with non-ASCII ticker / account",
         "further directed passes (full grid in every state): an order subclass whose set_price_qty() hook leaves Price out (market order; quick: acknowledged order + cancel / replace request, thorough: full BFS), and orders the helper instance first sees through fix_cxl_request / fix_rep_request (second helper instance after an acknowledgement through the first; acknowledgement by hand-made reports)",
         "boundary probe in every state and along a directed chain with fractional order quantity 0.75 / 1.25: (E/2+d, E/2) and (E/2, E/2+d) for d in -0.0001 .. +0.001 x ExecType; the sum clause is judged exactly on the decimal strings of the message",
+        "split probe along directed chains with order quantities 2.43e-05 / 3.17e-05 (thorough: also 2.431e-05 / 3.173e-05; floats Python prints with an exponent): every split of the quantity into CumQty + LeavesQty (+ one unit of slack) at the quantity's own last decimal place x ExecType, judged by the same exact-decimal sum clause",
+        "fidelity: the heartbeat period is a parameter of the session (initiator, its Logon(108), real acceptor configured alike); periods other than 30 are run for the short scripts only, and a difference is attributed to the period only if the same script shows none with 30",
         "probes outside the main grid in every state (numeric arguments defaulted, ExecType x OrdStatus): ClOrdID of somebody else / the root / the id retired by a REPLACED report, OrdStatus CREATED (Z), avg_price=nan; cancel rejects also with CREATED; directed chains for quantity 2e-05 / 1e16 with price 5e-05 and for a plain MARKET order with price nan; requests built by order.cancel_req() / replace_req()",
         "chains are extended with exchange-consistent reports only (all other accepted reports are judged and processed one step deep)",
         "quick tier: FIXSchema.validate (0.6 ms per call) runs on every message showing a new tag set or a new (tag, value) pair; the independent dictionary reading runs on every message; thorough tier: FIXSchema.validate on every distinct content",
